@@ -35,5 +35,15 @@ a = s.index("| id | ")
 b = s.index("\n\n", a)
 s = s[:a] + head + "\n".join(rows) + s[b:]
 s = re.sub(r"All 54 properties are claimed; `not_applicable` is empty\. [0-9+]+ property theorems", "All 54 properties are claimed; `not_applicable` is empty. %d property theorems" % tot, s)
+# §6: number of fix commits and the list of unrepaired findings
+import subprocess
+nfix = len([l for l in subprocess.run(["git", "-C", "/repo", "log", "--format=%s"], capture_output=True, text=True).stdout.splitlines() if l.startswith("fix:")])
+s = re.sub(r"\*\*\d+ `fix:` commits\*\*", "**%d `fix:` commits**" % nfix, s)
+ids = []
+for n in range(1, 55):
+    kf = os.path.join(V, "known", "C%02d.json" % n)
+    if os.path.exists(kf): ids += [f["id"] for f in json.load(open(kf)).get("findings", [])]
+s = re.sub(r"(`_partial` \+ `_counterexample`:\n)(.*?)(On the unchanged tree each check)", lambda m: m.group(1) + "  " + ", ".join(ids) + ".\n  " + m.group(3), s, flags=re.S)
 open(p, "w").write(s)
+print("DESIGN.md §6:", nfix, "fix commits,", len(ids), "findings")
 print("DESIGN.md §5 table:", len(rows), "rows,", tot, "theorems")
